@@ -35,13 +35,22 @@ def lemma_mid(eb, sb, timeout_s=900):
     mid = node.get_cpoint()[0]
     obligations, res = [], []
     structural = []
+    solver_obl = []
     for kind in ("B", "DB"):
         part = partition_class(kind)(domain=[[lo, hi]])
         part.make_children(part.get_root(), newlayer=True)
         ch = part.get_root().get_children()
         d0, d1 = ch[0].get_domain()[0], ch[1].get_domain()[0]
-        structural.append(("%s: children are [lo,mid],[mid,hi] with the very same terms" % kind,
-                           d0[0].e.eq(lo.e) and d1[1].e.eq(hi.e) and d0[1].e.eq(d1[0].e) and d0[1].e.eq(mid.e)))
+        same = len(ch) == 2 and d0[0].e.eq(lo.e) and d1[1].e.eq(hi.e) and d0[1].e.eq(d1[0].e) and d0[1].e.eq(mid.e)
+        if same or len(ch) != 2:
+            structural.append(("%s: children are [lo,mid],[mid,hi] with the very same terms" % kind, bool(same)))
+        else:
+            # the code computes the faces in another way: the property only asks for bit-identical outer and shared faces and
+            # ordered boundaries, so these become solver obligations over the terms the code produced
+            for nm, prop in (("lower outer face is the parent's (bit-exact)", z3.fpEQ(d0[0].e, lo.e)), ("upper outer face is the parent's (bit-exact)", z3.fpEQ(d1[1].e, hi.e)),
+                             ("shared face bit-identical", z3.BoolVal(True) if d0[1].e.eq(d1[0].e) else z3.fpEQ(d0[1].e, d1[0].e)),
+                             ("lo <= shared face", z3.fpLEQ(lo.e, d0[1].e)), ("shared face <= hi", z3.fpLEQ(d0[1].e, hi.e))):
+                solver_obl.append((kind, "%s: %s" % (kind, nm), prop))
     status = "holds"
     witness = None
     for name, prop in (("lo <= (lo+hi)/2", z3.fpLEQ(lo.e, mid.e)), ("(lo+hi)/2 <= hi", z3.fpLEQ(mid.e, hi.e)), ("(lo+hi)/2 is finite", z3.Not(z3.Or(z3.fpIsInf(mid.e), z3.fpIsNaN(mid.e))))):
@@ -58,9 +67,25 @@ def lemma_mid(eb, sb, timeout_s=900):
         if not ok:
             status = "violated"
             witness = witness or {"obligation": name}
+    replayable = (eb, sb) == (11, 53)
+    for kind, name, prop in solver_obl:
+        if status == "violated":
+            break
+        st, model = S.prove(prop)
+        res.append((name, st))
+        if st == "violated":
+            status = "violated"
+            witness = {"lo": fp_to_float(model, lo.e), "hi": fp_to_float(model, hi.e), "obligation": name, "kind": kind}
+            w64 = binary64_witness(None, witness["lo"], witness["hi"], fails=lambda a, b, _K, kind=kind: split_concrete_failures(kind, a, b))
+            if w64 is not None:
+                witness = dict(w64, obligation=name, kind=kind, reduced_precision_model={"lo": witness["lo"], "hi": witness["hi"]},
+                               note="solver: not a theorem in binary(%d,%d); binary64 box located by concrete search and confirmed on the unshimmed code" % (eb, sb))
+                replayable = True
+        elif st == "unknown" and status == "holds":
+            status = "unknown"
     return {"lemma": "L-mid binary(%d,%d)" % (eb, sb), "status": status, "precondition": pre, "term": str(mid.e), "obligations": res,
             "queries": S.queries, "solver_s": round(S.solver_s, 2), "wall_s": round(time.time() - t0, 2), "witness": witness,
-            "replayable": (eb, sb) == (11, 53)}
+            "replayable": replayable}
 
 
 def lemma_kary(eb, sb, K, timeout_s=900):
@@ -148,7 +173,29 @@ def kary_concrete_failures(lo, hi, K):
     return bad
 
 
-def binary64_witness(K, lo0, hi0, budget=60000):
+def split_concrete_failures(kind, lo, hi):
+    """the face obligations of a binary split (B / DB in one dimension) on plain doubles with the unshimmed code"""
+    if not (math.isfinite(lo) and math.isfinite(hi) and lo < hi and abs(lo) <= 2.0 ** 1022 and abs(hi) <= 2.0 ** 1022):
+        return None
+    part = partition_class(kind)(domain=[[lo, hi]])
+    part.make_children(part.get_root(), newlayer=True)
+    ch = part.get_root().get_children()
+    if len(ch) != 2:
+        return ["number of children = %d" % len(ch)]
+    d0, d1 = [float(v) for v in ch[0].get_domain()[0]], [float(v) for v in ch[1].get_domain()[0]]
+    bad = []
+    if d0[0] != lo:
+        bad.append("lower outer face %r is not the parent's %r" % (d0[0], lo))
+    if d1[1] != hi:
+        bad.append("upper outer face %r is not the parent's %r" % (d1[1], hi))
+    if d0[1] != d1[0]:
+        bad.append("children do not share their face: %r vs %r" % (d0[1], d1[0]))
+    if not lo <= d0[1] <= hi:
+        bad.append("shared face %r outside [%r, %r]" % (d0[1], lo, hi))
+    return bad
+
+
+def binary64_witness(K, lo0, hi0, budget=60000, fails=None):
     """a reduced-precision counterexample (lo0, hi0) says the obligation is not a theorem of IEEE arithmetic for this code;
     to report it against the binary64 library a binary64 box on which the real code fails is needed.  Candidates: the model
     itself (its values are doubles), its scalings and one-ulp neighbours, then a deterministic bank of boxes (integers,
@@ -178,8 +225,10 @@ def binary64_witness(K, lo0, hi0, budget=60000):
     tried = 0
     for lo, hi in cands:
         try:
-            bad = kary_concrete_failures(lo, hi, K)
+            bad = (fails or kary_concrete_failures)(lo, hi, K)
         except Exception:  # noqa
+            continue
+        if bad is None:
             continue
         tried += 1
         if bad:
@@ -193,8 +242,10 @@ def replay(result):
     if "lo" not in w:
         return False
     lo, hi = w["lo"], w["hi"]
-    if "K" in w:
+    if w.get("K") is not None:
         return bool(kary_concrete_failures(lo, hi, w["K"]))
+    if w.get("kind") in ("B", "DB"):
+        return bool(split_concrete_failures(w["kind"], lo, hi))
     m = mods()
     node = m["Node"].P_node(0, 1, None, [[lo, hi]])
     mid = node.get_cpoint()[0]
